@@ -86,6 +86,10 @@ pub const E_EOF: i64 = 5;
 pub const E_UNSUPPORTED: i64 = 6;
 pub const E_IO: i64 = 7;
 pub const E_PANIC: i64 = 8;
+/// Returned by an impl op when the property predicate does not apply to this case (e.g. the
+/// constructor rejected the input): the driver does not compare such a line.
+pub fn skip() -> Args { vec![vec![BigInt::from(-987654321)]] }
+pub fn is_skip(a: &Args) -> bool { a.len() == 1 && a[0].len() == 1 && a[0][0] == BigInt::from(-987654321) }
 pub fn err(kind: i64) -> Args { vec![vec![BigInt::from(-1), BigInt::from(kind)]] }
 
 /// One generated case: the implementation op to run, its arguments, and the model ops
